@@ -261,6 +261,8 @@ def classify(case, log_, verdict):
     toks = case.split()[2:]
     m = re.match(r"bad:(\d+)", verdict)
     code = int(m.group(1)) if m else -1
+    if log_.startswith("IDENT"):
+        return {"C10"}, "identity"
     if not log_.startswith("ret="):
         return {"C09", "C10"}, "harness-" + log_.split()[0].lower()
     if code == 1:
